@@ -311,6 +311,10 @@ func runCheck(id, tier string, seed int) int {
 		budget = 60000
 	}
 	outDir := filepath.Join(vd, "out", id)
+	if r := os.Getenv("VERIF_REPO"); r != "" {
+		// a run against a scratch copy gets its own directory, so that it can run beside a check of /repo (or of another copy)
+		outDir = filepath.Join(vd, "out", id+"@"+filepath.Base(r))
+	}
 	os.RemoveAll(outDir)
 	os.MkdirAll(filepath.Join(outDir, "replay"), 0o755)
 
@@ -748,7 +752,7 @@ func relaxedReplay(eng *Engine, res *UnitResult, o *Obligation) (bool, string) {
 	}
 	relaxed := *o
 	relaxed.Query = strings.Join(kept, "\n")
-	file := filepath.Join(eng.verifDir, "out", "replaytmp", sanitizeFile(o.Name)+".relaxed.smt2")
+	file := filepath.Join(eng.verifDir, "out", replayTmpName(), sanitizeFile(o.Name)+".relaxed.smt2")
 	os.MkdirAll(filepath.Dir(file), 0o755)
 	os.WriteFile(file, []byte(finalQuery(res.Ctx, relaxed.Query)), 0o644)
 	r, out := runSolver(context.Background(), solvers[0], file, 8000, 0)
@@ -757,4 +761,12 @@ func relaxedReplay(eng *Engine, res *UnitResult, o *Obligation) (bool, string) {
 	}
 	relaxed.Result, relaxed.Model = "sat", modelOf(r, out)
 	return tryReplay(eng, res, &relaxed)
+}
+
+// replayTmpName: the scratch directory of replay tests; a run against a scratch copy (VERIF_REPO) gets its own.
+func replayTmpName() string {
+	if r := os.Getenv("VERIF_REPO"); r != "" {
+		return "replaytmp@" + filepath.Base(r)
+	}
+	return "replaytmp"
 }
